@@ -25,13 +25,67 @@ func c14DiskValidateFirst(c *Ctx) {
 		return
 	}
 	n := 0
-	for _, sf := range p.SSAFuncsOf([]*packages.Package{pk}) {
-		if sf.Signature.Recv() == nil || !strings.HasSuffix(namedPath(derefType(sf.Signature.Recv().Type())), "storageos.bucket") {
+	isBucketMethod := func(sf *ssa.Function) bool {
+		return sf.Signature.Recv() != nil && strings.HasSuffix(namedPath(derefType(sf.Signature.Recv().Type())), "storageos.bucket")
+	}
+	// validators: validateExternalPath, and the bucket methods that return successfully only after a validator ran
+	// (`getValidatedExternalPath`: compute the path, validate it, hand it back)
+	validators := map[*ssa.Function]bool{}
+	funcs := p.SSAFuncsOf([]*packages.Package{pk})
+	for _, sf := range funcs {
+		if sf.Name() == "validateExternalPath" && isBucketMethod(sf) {
+			validators[sf] = true
+		}
+	}
+	for round := 0; round < 2; round++ {
+		for _, sf := range funcs {
+			if validators[sf] || !isBucketMethod(sf) {
+				continue
+			}
+			var vs []ssa.Instruction
+			for _, call := range callsIn(sf) {
+				if sc := call.Call.StaticCallee(); sc != nil && validators[sc] {
+					vs = append(vs, call.Instr)
+				}
+			}
+			if len(vs) == 0 {
+				continue
+			}
+			okAll, nRet := true, 0
+			for _, r := range returnsOf(sf) {
+				if len(r.Results) == 0 || !isNilConst(stripConv(spilledResult(r, r.Results[len(r.Results)-1]))) {
+					continue
+				}
+				nRet++
+				dom := false
+				for _, v := range vs {
+					if instrDominates(v, r) {
+						dom = true
+					}
+				}
+				if !dom {
+					okAll = false
+				}
+			}
+			// only a function without reads of its own is a validator; one that reads is judged below
+			reads := false
+			for _, call := range callsIn(sf) {
+				if o := staticCalleeObj(call.Call); o != nil && o.Pkg() != nil && o.Pkg().Path() == "os" {
+					reads = true
+				}
+			}
+			if okAll && nRet > 0 && !reads {
+				validators[sf] = true
+			}
+		}
+	}
+	for _, sf := range funcs {
+		if !isBucketMethod(sf) || validators[sf] {
 			continue
 		}
 		var validates []ssa.Instruction
 		for _, call := range callsIn(sf) {
-			if o := staticCalleeObj(call.Call); o != nil && o.Name() == "validateExternalPath" {
+			if sc := call.Call.StaticCallee(); sc != nil && validators[sc] {
 				validates = append(validates, call.Instr)
 			}
 		}
